@@ -91,11 +91,19 @@ def snap(x):
     arr = np.asarray(val)
     s.shape = tuple(arr.shape)
     s.val_container = type(val).__name__
-    s.is_complex = bool(np.iscomplexobj(arr)) or x.vdtype == complex
-    if np.iscomplexobj(arr):
-        s.codes, ok1, b1 = _to_int_list(arr.real)
-        s.imag, ok2, b2 = _to_int_list(arr.imag)
-        # complex codes are kept in complex128 by the library; type purity is only meaningful for real objects
+    obj_complex = arr.dtype == object and any(isinstance(k, (complex, np.complexfloating)) for k in arr.ravel().tolist())
+    s.is_complex = bool(np.iscomplexobj(arr)) or x.vdtype == complex or obj_complex \
+        or isinstance(getattr(x, 'upper', None), complex) or str(getattr(x, 'dtype', '')).endswith('-complex')
+    if np.iscomplexobj(arr) or obj_complex:
+        if obj_complex:
+            flat = arr.ravel().tolist()
+            re_ = np.array([complex(k).real for k in flat], dtype=object).reshape(arr.shape)
+            im_ = np.array([complex(k).imag for k in flat], dtype=object).reshape(arr.shape)
+        else:
+            re_, im_ = arr.real, arr.imag
+        s.codes, ok1, b1 = _to_int_list(re_)
+        s.imag, ok2, b2 = _to_int_list(im_)
+        # complex codes are kept as (complex) floats by the library; type purity is only meaningful for real objects
         s.ints_ok, s.bad_type = True, None
     else:
         s.codes, s.ints_ok, s.bad_type = _to_int_list(arr)
